@@ -2,6 +2,7 @@ package main
 
 import (
 	"fmt"
+	"strings"
 
 	"golang.org/x/tools/go/ssa"
 )
@@ -123,6 +124,9 @@ func runC19(c *Ctx) {
 			var recvs []rc
 			for i := range p.Events {
 				e := &p.Events[i]
+				if e.Kind == "recv" && e.Addr.Key() == ch.Key() && s.timeoutArg < 0 && !doneKnownNil(p) {
+					ok, why = false, "a path ("+p.CondString()+") receives outside the select although the context may be cancellable: a cancellation is ignored"
+				}
 				if e.Kind == "recv" && e.Addr.Key() == ch.Key() {
 					if e.Val.Sym == "commaok" {
 						recvs = append(recvs, rc{&Term{Op: "extract", Args: []*Term{e.Val}, N: 0}, &Term{Op: "extract", Args: []*Term{e.Val}, N: 1}})
@@ -472,6 +476,9 @@ func c19Senders(c *Ctx, rule string, onlyTimeout bool) {
 			n := 0
 			for i := range p.Events {
 				e := &p.Events[i]
+				if e.Kind == "send" && s.timeoutArg < 0 && !doneKnownNil(p) {
+					ok, why = false, "a path ("+p.CondString()+") sends outside the select although the context may be cancellable: a cancellation is ignored"
+				}
 				if e.Kind == "send" {
 					if e.Addr.Key() == ch.Key() && e.Val.Key() == val.Key() {
 						n++
@@ -588,6 +595,23 @@ func impliesNonPositive(r Rel, bound *Poly) bool {
 		return negD.Equal(bound) || negD.Add(one, 1).Equal(bound)
 	case "==":
 		return D.Equal(bound) || negD.Equal(bound)
+	}
+	return false
+}
+
+// doneKnownNil: the path has found the context's Done channel nil (a context that can never be cancelled): only then is
+// a transfer outside a select with the Done arm the same as one inside it.
+func doneKnownNil(p *Path) bool {
+	for _, cd := range p.Conds {
+		r := cd.Rel()
+		if r.B == nil || r.Op != "==" {
+			continue
+		}
+		for _, side := range [][2]*Term{{r.A, r.B}, {r.B, r.A}} {
+			if side[0].Op == "call" && strings.HasSuffix(side[0].Sym, ".Done") && side[1].IsNil() {
+				return true
+			}
+		}
 	}
 	return false
 }
